@@ -40,7 +40,9 @@ package mdiff
 //@+     && (forall k int :: {c.Edits[k]} 0 <= k && k < len(c.Edits) ==> editDesc(c.Edits[k], L, R, c.cl[k] - 1, c.cr[k] - 1) && c.cl[k + 1] == c.cl[k] + consumes(c.Edits[k]) && c.cr[k + 1] == c.cr[k] + produces(c.Edits[k]))
 //@
 //@ pred sameChunk(c *Chunk) := c.LStart == old(c.LStart) && c.RStart == old(c.RStart) && c.LEnd == old(c.LEnd) && c.REnd == old(c.REnd) && c.Edits == old(c.Edits) && c.cl == old(c.cl) && c.cr == old(c.cr)
-//@ pred ctxOK(c *Chunk, n int) := old(c.LStart) - n <= c.LStart && c.LStart <= old(c.LStart) && old(c.LStart) - c.LStart == old(c.RStart) - c.RStart && old(c.LEnd) <= c.LEnd && c.LEnd <= old(c.LEnd) + n && c.LEnd - old(c.LEnd) == c.REnd - old(c.REnd)
+//@ pred owns(d *Diff) := (forall j int :: {d.Chunks[j]} 0 <= j && j < len(d.Chunks) ==> len(d.Chunks[j].Edits) > 0 && d.Chunks[j].Edits.base != d.Edits.base)
+//@+     && (forall a int, b int :: {d.Chunks[a], d.Chunks[b]} 0 <= a && a < b && b < len(d.Chunks) ==> d.Chunks[a] != d.Chunks[b] && d.Chunks[a].Edits.base != d.Chunks[b].Edits.base)
+//@ pred ctxOK(c *Chunk, n int) := old(c.LStart) - ite(n > 0, n, 0) <= c.LStart && c.LStart <= old(c.LStart) && old(c.LStart) - c.LStart == old(c.RStart) - c.RStart && old(c.LEnd) <= c.LEnd && c.LEnd <= old(c.LEnd) + ite(n > 0, n, 0) && c.LEnd - old(c.LEnd) == c.REnd - old(c.REnd)
 //@
 //@ func New
 //@   ensures [C13] diff: result != nil && fresh(result) && result.Left == lhs && result.Right == rhs
@@ -88,16 +90,17 @@ package mdiff
 // the same number of lines at each end, at most n, and nothing but the chunks is written (Left, Right and the script
 // in Edits are untouched).
 //@ func (*Diff).AddContext
-//@   requires [C13] d != nil
+//@   requires [C13] d != nil && owns(d)
 //@   requires [C13] described: forall j int :: {d.Chunks[j]} 0 <= j && j < len(d.Chunks) ==> chunkDesc(d.Chunks[j], d.Left, d.Right)
-//@   requires [C13] apart: forall a int, b int :: {d.Chunks[a], d.Chunks[b]} 0 <= a && a < b && b < len(d.Chunks) ==> d.Chunks[a] != d.Chunks[b]
-//@   ensures  [C13] same: result == d && d.Left == old(d.Left) && d.Right == old(d.Right) && d.Chunks == old(d.Chunks) && d.Edits == old(d.Edits) && unchanged(elems(d.Chunks)) && unchanged(elems(d.Edits)) && unchanged(elems(d.Left)) && unchanged(elems(d.Right))
+//@   ensures  [C13] same: result == d && d.Left == old(d.Left) && d.Right == old(d.Right) && d.Chunks == old(d.Chunks) && d.Edits == old(d.Edits) && unchanged(elems(d.Chunks)) && unchanged(elems(d.Edits)) && old_arrays_unchanged(d.Left)
+//@   ensures  [C13] owns: owns(d)
 //@   ensures  [C13] described: forall j int :: {d.Chunks[j]} 0 <= j && j < len(d.Chunks) ==> chunkDesc(d.Chunks[j], d.Left, d.Right)
 //@   ensures  [C13] context: forall j int :: {d.Chunks[j]} 0 <= j && j < len(d.Chunks) ==> ctxOK(d.Chunks[j], n)
-//@   modifies every(d.Chunks[0].Edits), every(d.Chunks[0].LStart), every(d.Chunks[0].RStart), every(d.Chunks[0].LEnd), every(d.Chunks[0].REnd), every(d.Chunks[0].cl), every(d.Chunks[0].cr)
-//@   loop 1: invariant [C13] same: d.Left == old(d.Left) && d.Right == old(d.Right) && d.Chunks == old(d.Chunks) && d.Edits == old(d.Edits) && unchanged(elems(d.Chunks)) && unchanged(elems(d.Edits)) && unchanged(elems(d.Left)) && unchanged(elems(d.Right)) && n > 0
+//@   modifies every(backing(d.Chunks[0].Edits)), every(d.Chunks[0].Edits), every(d.Chunks[0].LStart), every(d.Chunks[0].RStart), every(d.Chunks[0].LEnd), every(d.Chunks[0].REnd), every(d.Chunks[0].cl), every(d.Chunks[0].cr)
+//@   loop 1: invariant [C13] same: d.Left == old(d.Left) && d.Right == old(d.Right) && d.Chunks == old(d.Chunks) && d.Edits == old(d.Edits) && unchanged(elems(d.Chunks)) && unchanged(elems(d.Edits)) && old_arrays_unchanged(d.Left) && n > 0
+//@   loop 1: invariant [C13] owns: owns(d)
 //@   loop 1: invariant [C13] done: forall j int :: {d.Chunks[j]} 0 <= j && j < it1 ==> chunkDesc(d.Chunks[j], d.Left, d.Right) && ctxOK(d.Chunks[j], n)
-//@   loop 1: invariant [C13] todo: forall j int :: {d.Chunks[j]} it1 <= j && j < len(d.Chunks) ==> chunkDesc(d.Chunks[j], d.Left, d.Right) && sameChunk(d.Chunks[j])
+//@   loop 1: invariant [C13] todo: forall j int :: {d.Chunks[j]} it1 <= j && j < len(d.Chunks) ==> chunkDesc(d.Chunks[j], d.Left, d.Right) && sameChunk(d.Chunks[j]) && unchanged(elems(d.Chunks[j].Edits))
 //@   at loop 1 head: ghost cl0 = c.cl
 //@   at loop 1 head: ghost cr0 = c.cr
 //@   at after "c.RStart -= len(pre)": ghost c.cl = lambda k int :: ite(k == 0, c.LStart, cl0[k - 1])
